@@ -26,6 +26,7 @@ static std::optional<Failure> check_one(Run &R, const Bytes &a, int mask) {
     R.count(nontriv ? "has-both-halves" : "degenerate");
     size_t nat = std::count(a.begin(), a.end(), '@'); if (nat >= 2) R.count("two-or-more-@");
     int ipa = c("EEAV_IPADDR_INVALID"), ipb = c("EEAV_IPADDR_BRACKET_UNPAIR");
+    for (int m = 0; m < 4; m++) { std::string w = veteran_differs(o, m); R.eval(); if (!w.empty()) return Failure{"mode-after-history", g_case, "address '" + show(a) + "': " + w + " (the mode confirmed by the last successful eav_setup must be the one applied)"}; }
     for (int m = 0; m < 4; m++) for (int t = 0; t < 2; t++) {
         const v_outcome &ob = o.obj[m][t], &di = o.dir[m][t];
         std::string where = std::string("mode ") + ref::MODE_NAME[m] + " tld_check=" + std::to_string(t) + " address '" + show(a) + "'";
